@@ -1,6 +1,7 @@
 package world
 
 import (
+	"strings"
 	"context"
 	"crypto/sha256"
 	"encoding/binary"
@@ -18,7 +19,7 @@ import (
 // Submit outcomes: ok | prefix:<k> | timeout | mempool | toobig | err | acklost | cancel
 // Fetch outcomes (per GetIDs call on a height, consumed in order, then the natural answer):
 //
-//	notfound | future | errlist | deadline | canceled | errchunk:<i> | ok
+//	notfound | future | errlist | deadline | canceled | errchunk:<i>[:notfound|future|deadline] | ok
 //
 // deadline / canceled: the listing fails with a context error although the caller's context is alive (the
 // per-request timeout fired, or the DA server cancelled the request on its side).
@@ -35,6 +36,7 @@ type DADouble struct {
 	// FetchScript[height] is consumed one entry per GetIDs call on that height.
 	FetchScript map[uint64][]string
 	chunkErr    map[uint64]int // height -> index of the Get call that must fail (armed by errchunk)
+	chunkKind   map[uint64]string // height -> error class of that failure (errchunk:<i>:<class>)
 	getCalls    map[uint64]int
 	// Classify decodes a blob into a trace summary (kind, h, hash, sig, ntx).
 	Classify func([]byte) F
@@ -57,7 +59,7 @@ type daBlob struct {
 
 func NewDADouble(tr *Tracer) *DADouble {
 	return &DADouble{tr: tr, heights: map[uint64][]daBlob{}, byID: map[string][]byte{}, Default: "ok",
-		FetchScript: map[uint64][]string{}, chunkErr: map[uint64]int{}, getCalls: map[uint64]int{}}
+		FetchScript: map[uint64][]string{}, chunkErr: map[uint64]int{}, chunkKind: map[uint64]string{}, getCalls: map[uint64]int{}}
 }
 
 var _ coreda.DA = (*DADouble)(nil)
@@ -218,8 +220,15 @@ func (d *DADouble) GetIDs(ctx context.Context, height uint64, namespace []byte) 
 	var ids []coreda.ID
 	if len(out) > 9 && out[:9] == "errchunk:" {
 		var i int
-		fmt.Sscanf(out[9:], "%d", &i)
+		kind := ""
+		if parts := strings.SplitN(out[9:], ":", 2); len(parts) == 2 {
+			fmt.Sscanf(parts[0], "%d", &i)
+			kind = parts[1]
+		} else {
+			fmt.Sscanf(out[9:], "%d", &i)
+		}
 		d.chunkErr[height] = d.getCalls[height] + i + 1
+		d.chunkKind[height] = kind
 		out = "okchunkerr"
 	}
 	if out == "ok" || out == "okchunkerr" {
@@ -256,8 +265,10 @@ func (d *DADouble) Get(ctx context.Context, ids []coreda.ID, namespace []byte) (
 	}
 	d.getCalls[height]++
 	fail := d.chunkErr[height] != 0 && d.chunkErr[height] == d.getCalls[height]
+	kind := d.chunkKind[height]
 	if fail {
 		delete(d.chunkErr, height)
+		delete(d.chunkKind, height)
 	}
 	var out []coreda.Blob
 	missing := false
@@ -278,8 +289,20 @@ func (d *DADouble) Get(ctx context.Context, ids []coreda.ID, namespace []byte) (
 	} else if missing {
 		res = "missing"
 	}
+	if fail && kind != "" {
+		res = "err-" + kind
+	}
 	d.tr.Emit("DAGet", F{"dah": int(height), "nids": len(ids), "res": res})
 	if fail {
+		// the failure of fetching a chunk of ids may carry any error value the DA interface defines
+		switch kind {
+		case "notfound":
+			return nil, fmt.Errorf("dadouble: chunk of height %d: %w", height, coreda.ErrBlobNotFound)
+		case "future":
+			return nil, fmt.Errorf("dadouble: chunk of height %d: %w", height, coreda.ErrHeightFromFuture)
+		case "deadline":
+			return nil, fmt.Errorf("dadouble: chunk of height %d: %w", height, context.DeadlineExceeded)
+		}
 		return nil, errors.New("dadouble: scripted chunk failure")
 	}
 	if missing {
